@@ -41,6 +41,11 @@ Record dtables := {
 (* ---- one run of the product ---- *)
 Inductive omode := MDiff | MEdits | MDigest.         (* full diff, -e, -d *)
 Inductive ostyle := SPlain | SColor | SHtml.
+(* --dict-strategy auto (default) / match / none (= -k, --no-key-edits): with `none` mappings are built as
+   FixedKeyDictNode, otherwise as DictNode *)
+Inductive dstrategy := DSAuto | DSMatch | DSNone.
+(* list edits: default / -l (--no-list-edits) / -ll (--no-list-edits-when-same-length) *)
+Inductive lflag := LDefault | LNoListEdits | LSameLength.
 
 (* formatter instance = its class followed by the classes of its ancestors up to the root *)
 Definition finst := list string.
@@ -62,6 +67,7 @@ Inductive outcome :=
 
 Record c13_case := {
   c_it : string; c_of : string; c_mode : omode; c_style : ostyle; c_join : bool; c_differ : bool;
+  c_ds : dstrategy; c_lf : lflag;
   c_roots : list string;               (* classes of the two loaded roots *)
   c_pairs : list (string * string);    (* (class, class of one of its children) over both loaded trees *)
   c_kinds : list string;               (* scalar classes of the leaves of both loaded trees *)
